@@ -505,6 +505,20 @@ def run(ctx):
         seen_ic = True
         ctx.check(ok_ic, R6, 'iconv real_convert:a-failed-step-under-stop-throws-unless-E2BIG', 'with method stop a conversion step that failed for a reason other than a full output buffer (ill-formed or truncated '
                   'input) can end the conversion normally: ill-formed text in such an encoding is reported valid', g.where)
+    # the ICU back-end: every converter an open() creates is told the caller's method (a converter left at its default skips malformed input)
+    nicu = 0
+    for g in sorted([x for x in PI.fns.values() if x.short == 'open' and (x.record or '').rsplit('::', 1)[-1].startswith('uconv_') and x.body is not None], key=lambda x: x.id):
+        hp_ = [p_['ref'] for p_ in g.params if 'method_type' in (g.types[p_['t']] or '')]
+        for i in g.all_nodes():
+            if g.N(i)['k'] != 'CXXNewExpr' or 'icu_std_converter' not in (g.N(i).get('nt') or ''):
+                continue
+            ce = [c_ for c_ in g.N(i)['ch'] if g.N(g.strip(c_))['k'] == 'CXXConstructExpr']
+            args_ = [x for x in g.N(g.strip(ce[0]))['ch'] if g.N(x)['k'] != 'CXXDefaultArgExpr'] if ce else []
+            nicu += 1
+            ctx.check(len(hp_) == 1 and len(args_) >= 2 and hp_[0] in q.deep_refs(g, args_[1]), R6, '%s::open:converter#%d-gets-the-callers-method' % ((g.record or '').rsplit('::', 1)[-1], nicu),
+                      'an ICU converter is created without the mode derived from the caller\'s method: with stop, malformed input in that direction is skipped instead of reported', g.loc(i))
+    if rcs is not None and not nicu:
+        ctx.notes.append('C14.R6: the ICU converter is not compiled in this configuration: clause not applicable')
     # the generic (iconv / ICU) fall-back of encoding::valid must let conversion errors surface
     vf = [f for f in PE.by_bname.get('cppcms::encoding::valid', []) if len(f.params) == 4 and 'basic_string' in f.id]
     ctx.require(len(vf) >= 1, 'C14.R6: encoding::valid(encoding,begin,end,count) not found')
